@@ -7,6 +7,7 @@ import (
 	"fmt"
 	"os"
 	"path/filepath"
+	"runtime"
 	"sort"
 	"strconv"
 	"strings"
@@ -272,4 +273,85 @@ func DevSetTLA(devs []string) string {
 	}
 	sort.Strings(q)
 	return "{" + strings.Join(q, ", ") + "}"
+}
+
+// ---- in-process guard ----
+//
+// Most checks call the library inside the harness process. A defect that makes
+// such a call loop or allocate without bound would otherwise hang the check or
+// get it killed, which says nothing. Every call of the real code is bracketed
+// by Enter / the returned leave function; a monitor reports the call that has
+// been running for more than a minute, or during which the heap grew by more
+// than 3 GiB, as a violation attributed to its input, and ends the run with exit 1.
+
+type guardedCall struct {
+	desc      string
+	detail    any
+	start     time.Time
+	seenHeap  uint64 // heap when the monitor first saw this call still running
+	seenTwice bool
+}
+
+var (
+	guardMu    sync.Mutex
+	guardCalls = map[*guardedCall]bool{}
+	guardOnce  sync.Once
+	guardCtx   *Ctx
+)
+
+const guardSeconds, guardHeap = 60, 3 << 30
+
+// Enter registers a call of the real code; call the result when it returns.
+func (c *Ctx) Enter(desc string, detail any) func() {
+	guardOnce.Do(func() {
+		guardCtx = c
+		go guardMonitor()
+	})
+	k := &guardedCall{desc: desc, detail: detail, start: time.Now()}
+	guardMu.Lock()
+	guardCalls[k] = true
+	guardMu.Unlock()
+	return func() {
+		guardMu.Lock()
+		delete(guardCalls, k)
+		guardMu.Unlock()
+	}
+}
+
+func guardMonitor() {
+	var ms runtime.MemStats
+	for {
+		time.Sleep(500 * time.Millisecond)
+		runtime.ReadMemStats(&ms)
+		guardMu.Lock()
+		var oldest *guardedCall
+		for k := range guardCalls {
+			if oldest == nil || k.start.Before(oldest.start) {
+				oldest = k
+			}
+		}
+		guardMu.Unlock()
+		if oldest == nil {
+			continue
+		}
+		what := ""
+		if time.Since(oldest.start) > guardSeconds*time.Second {
+			what = fmt.Sprintf("the call has not returned after %d s", guardSeconds)
+		} else if !oldest.seenTwice {
+			oldest.seenTwice, oldest.seenHeap = true, ms.HeapAlloc
+		} else if ms.HeapAlloc > oldest.seenHeap+guardHeap {
+			what = fmt.Sprintf("the heap grew by %d MiB while the call was running", (ms.HeapAlloc-oldest.seenHeap)>>20)
+		}
+		if what == "" {
+			continue
+		}
+		c := guardCtx
+		in := fmt.Sprintf("%q", fmt.Sprint(oldest.detail))
+		if len(in) > 400 {
+			in = in[:400] + "..."
+		}
+		c.Violation(fmt.Sprintf("%s: %s on %s", what, oldest.desc, in), map[string]any{"what": what, "call": oldest.desc, "input": oldest.detail})
+		c.Logf("stopping: a call of the library inside the harness does not come back")
+		c.Finish()
+	}
 }
